@@ -91,6 +91,73 @@ def cut(fn, ordinal, carried, ctl_name="__vc"):
         else:
             missing = [c for c in carried if c not in bound]
             raise Undecided("loop-cut contract no longer matches %s: no variable `%s`" % (fdef.name, missing[0]))
+    # soundness of the cut: every variable the loop really carries from one iteration to the next (or out of the loop) must be
+    # part of the invariant's state.  Carried = bound to a name inside the body AND read where this iteration may not have
+    # bound it yet (before its first unconditional top-level assignment in the body), or read after the loop.
+    tnames = {n.id for n in ast.walk(target.target) if isinstance(n, ast.Name)}
+    comp_bound = {n.id for st in target.body for c in ast.walk(st) if isinstance(c, ast.comprehension) for n in ast.walk(c.target) if isinstance(n, ast.Name)}
+    stored = {n.id for st in target.body for n in ast.walk(st) if isinstance(n, ast.Name) and isinstance(n.ctx, ast.Store)} - tnames - comp_bound
+    really = set()
+
+    def loads(expr, definitely):
+        if expr is None:
+            return
+        for n in ast.walk(expr):
+            if isinstance(n, ast.Name) and isinstance(n.ctx, ast.Load) and n.id in stored and n.id not in definitely:
+                really.add(n.id)
+
+    def scan(stmts, definitely):
+        """definite assignment, statement by statement; what a nested block binds is conditional for the code after it"""
+        for st in stmts:
+            if isinstance(st, (ast.For, ast.AsyncFor)):
+                loads(st.iter, definitely)
+                inner = set(definitely) | {n.id for n in ast.walk(st.target) if isinstance(n, ast.Name)}
+                scan(st.body, inner)
+                scan(st.orelse, set(definitely))
+            elif isinstance(st, ast.While):
+                loads(st.test, definitely)
+                scan(st.body, set(definitely))
+                scan(st.orelse, set(definitely))
+            elif isinstance(st, ast.If):
+                loads(st.test, definitely)
+                scan(st.body, set(definitely))
+                scan(st.orelse, set(definitely))
+            elif isinstance(st, (ast.With, ast.AsyncWith)):
+                for it in st.items:
+                    loads(it.context_expr, definitely)
+                scan(st.body, set(definitely))
+            elif isinstance(st, ast.Try):
+                scan(st.body, set(definitely))
+                for h in st.handlers:
+                    scan(h.body, set(definitely))
+                scan(st.orelse, set(definitely))
+                scan(st.finalbody, set(definitely))
+            elif isinstance(st, (ast.Assign, ast.AnnAssign)):
+                loads(st.value, definitely)
+                for t in (st.targets if isinstance(st, ast.Assign) else [st.target]):
+                    if isinstance(t, ast.Name):
+                        if st.value is not None:
+                            definitely.add(t.id)
+                    else:
+                        loads(t, definitely)
+            elif isinstance(st, ast.AugAssign):
+                loads(st.value, definitely)
+                if isinstance(st.target, ast.Name):
+                    if st.target.id in stored and st.target.id not in definitely:
+                        really.add(st.target.id)
+                else:
+                    loads(st.target, definitely)
+            else:
+                loads(st, definitely)
+
+    scan(target.body, set(tnames))
+    end = getattr(target, "end_lineno", target.lineno)
+    for n in ast.walk(fdef):
+        if isinstance(n, ast.Name) and isinstance(n.ctx, ast.Load) and n.id in stored and n.lineno > end:
+            really.add(n.id)
+    extra = sorted(really - set(carried))
+    if extra:
+        raise Undecided("loop-cut contract no longer matches %s: the loop carries `%s`, which the invariant does not mention" % (fdef.name, extra[0]))
     names = ", ".join(carried)
     tup = f"({names},)" if carried else "()"
     lhs = tup if carried else "__none"
